@@ -300,6 +300,12 @@ def gen_case(rng, tier, exact=False, deriv=None, force=None):
         g = rng.choice([2, 2, 3])
         d = rng.choice([2, 2, 3])
         G = tuple([d, d if rng.random() < 0.6 else rng.choice([2, 3])] + [rng.choice([1, 2])] * (g - 2))
+    hand = force == "hand"
+    if hand:      # operators applied by hand, batch rank growing along the sequence
+        g = rng.choice([2, 2, 3])
+        G = tuple(rng.choice([2, 2, 3]) for _ in range(g))
+        if prodn(G) > 12:
+            G = tuple(min(d, 2) for d in G)
     nd = force == "nd-shift"
     if nd:      # first axis carries a grid whose coefficients may cancel when summed over it
         d = rng.choice([2, 4, 4])
@@ -312,6 +318,13 @@ def gen_case(rng, tier, exact=False, deriv=None, force=None):
     if exact:
         deriv = "none"
     ops = [{"kind": "T0"}]      # excite first: partials w.r.t. T2 / g / phi vanish on the equilibrium state
+    if hand:
+        nops = rng.randint(3, 5)
+        hranks = sorted(rng.randint(1, len(G)) for _ in range(nops))
+        hranks[0], hranks[-1] = 1, len(G)      # scalar/1-axis first, full rank last
+        if rng.random() < 0.5:
+            ops = [{"kind": "T", "A": [1], "axes": None, "pos": [0], "A0": [1], "order1": True, "order2": deriv == "o2",
+                    "params": {"alpha": {"v": 35.0, "core": 0, "form": "scalar"}, "phi": {"v": 20.0, "core": 0, "form": "scalar"}}}]
     if nd:
         deriv = "none"
         d = G[0]
@@ -332,6 +345,7 @@ def gen_case(rng, tier, exact=False, deriv=None, force=None):
                            "phi": {"v": phi, "core": 0, "form": "scalar" if np.ndim(phi) == 0 else "list"}}}]
         kvec = rng.choice([[1, 0], [1, 0], [1, 1, 0], [2, 0], [1, 0, 0]])
     shifted = 0
+    hcount = 0
     for _ in range(nops):
         kinds = ["ScalarOp", "MatrixOp"] if exact else ["T", "T", "Phi", "E", "E", "P", "R", "PD", "ScalarOp", "MatrixOp"]
         kind = rng.choice(kinds)
@@ -341,6 +355,16 @@ def gen_case(rng, tier, exact=False, deriv=None, force=None):
         if force == "mixed-o2" and len(ops) == 1:
             kind, fmode = rng.choice(["E", "E", "E", "P", "T", "R"]), "mixed-o2"
         A, axes, pos, A0 = gen_opshape(rng, G, fmode if fmode != "mixed-o2" else "none")
+        if hand:
+            kind = rng.choice(["T", "T", "Phi", "E", "E", "P", "R", "ScalarOp", "MatrixOp"])
+            r = hranks[min(hcount, len(hranks) - 1)]
+            hcount += 1
+            if r >= 2 and rng.random() < 0.35:      # (1,..,1,m) through axes=
+                A = (1,) * (r - 1) + (G[r - 1],)
+                axes, pos, A0 = r - 1, [r - 1], (G[r - 1],)
+            else:
+                A = tuple(G[i] if (rng.random() < 0.7 or i == r - 1) else 1 for i in range(r))
+                axes, pos, A0 = None, list(range(r)), A
         if fmode == "mixed-o2":
             A = tuple(G[:max(2, len(A))]) if len(G) >= 2 else tuple(G)
             axes, pos, A0 = None, list(range(len(A))), A
@@ -392,7 +416,13 @@ def gen_case(rng, tier, exact=False, deriv=None, force=None):
                 else:
                     o["order1"] = sorted(rng.sample(pnames, rng.randint(1, len(pnames))))
         ops.append(o)
-        if nd:
+        if hand:
+            if rng.random() < 0.5:
+                ops.append({"kind": "S", "k": 1, "A": [1]})
+                shifted += 1
+            if rng.random() < 0.5:
+                ops.append({"kind": rng.choice(["SPOILER", "PDs", "Wait", "D", "RESET"] if rng.random() < 0.15 else ["SPOILER", "PDs", "Wait", "D"]), "A": [1]})
+        elif nd:
             if rng.random() < 0.7:
                 ops.append({"kind": "Snd", "k": list(kvec), "A": [1]})
                 shifted += 1
@@ -428,6 +458,9 @@ def gen_case(rng, tier, exact=False, deriv=None, force=None):
     case = {"grid": list(G), "ops": ops, "deriv": deriv, "exact": exact, "probe": rng.choice(["F0", "Z0"])}
     if nd:
         case["nd"] = True
+    if hand:
+        case["hand"] = True
+        case["inplace"] = rng.random() < 0.5
     return case
 
 
@@ -453,6 +486,16 @@ def build_op(o, idx=None):
         return epg.ADC
     if k == "T0":
         return epg.T(35, 20)
+    if k == "SPOILER":
+        return epg.SPOILER
+    if k == "RESET":
+        return epg.RESET
+    if k == "Wait":
+        return epg.Wait(1.0)
+    if k == "PDs":
+        return epg.PD(1.5, reset=False)
+    if k == "D":
+        return epg.D(5.0, 1.0)
     if k == "Snd":      # n-D integer shift, default pruning
         return epg.S([int(x) for x in o["k"]])
     if k == "M0":
@@ -540,8 +583,66 @@ def spec_grid(case):
     return tuple(G)
 
 
+def apply_by_hand(case, idx=None):
+    """sm = op_n(...op_1(StateMatrix())) with the case's in-place flag; returns states and every partial"""
+    import epgpy as epg
+    sm = epg.StateMatrix()
+    for o in case["ops"]:
+        sm = build_op(o, idx)(sm, inplace=bool(case.get("inplace")))
+    out = {"states": np.array(sm.states)}
+    for key, part in getattr(sm, "order1", {}).items():
+        out["d:%s" % (key,)] = np.array(part.states)
+    for key, part in getattr(sm, "order2", {}).items():
+        out["d2:%s" % (tuple(sorted(key)),)] = np.array(part.states)
+    return tuple(sm.shape), out
+
+
+def oracle_hand(case):
+    """operators applied by hand: states and all first/second-order partials of every grid entry against
+    the scalar operators applied by hand"""
+    G = spec_grid(case)
+    try:
+        shape, vec = apply_by_hand(case)
+    except Exception as e:
+        tb = traceback.extract_tb(e.__traceback__)
+        where = ["%s:%d:%s" % (f.filename.split("/")[-1], f.lineno, f.name) for f in tb if "epgpy" in f.filename][-3:]
+        try:
+            apply_by_hand(case, (0,) * len(G or ()))
+        except type(e):
+            BOTH_RAISE[0] += 1
+            return None
+        except Exception:
+            pass
+        return ("exception", {"type": type(e).__name__, "msg": str(e)[:200], "where": where, "by_hand": True})
+    if shape != G:
+        return ("shape", {"got": list(shape), "expected": list(G), "by_hand": True})
+    worst = None
+    for idx in np.ndindex(*G):
+        try:
+            _, ref = apply_by_hand(case, idx)
+        except Exception as e:
+            return ("scalar-exception", {"type": type(e).__name__, "msg": str(e)[:200], "idx": list(idx)})
+        if set(ref) != set(vec):
+            return ("partials", {"vector": sorted(vec), "scalar": sorted(ref), "by_hand": True})
+        for key, a in vec.items():
+            bshape = a.shape[:-2]
+            if len(bshape) > len(G) or any(d not in (1, Gd) for d, Gd in zip(bshape, G)):
+                return ("shape", {"what": key, "got": list(bshape), "grid": list(G), "by_hand": True})
+            got = a[aproj(bshape, idx)]
+            r = ref[key].reshape(ref[key].shape[-2:])
+            if r.shape != got.shape:
+                return ("shape", {"what": key, "got": list(got.shape), "scalar": list(r.shape), "by_hand": True})
+            if not np.all(np.abs(got - r) <= 1e-12 * (1 + np.max(np.abs(r)))):
+                d = float(np.max(np.abs(got - r)))
+                if worst is None or d > worst[1]["maxdiff"]:
+                    worst = ("value", {"what": key, "idx": list(idx), "maxdiff": d, "by_hand": True})
+    return worst
+
+
 def oracle(case):
     """None if the vectorised run equals the stack of scalar runs, else (kind, detail)"""
+    if case.get("hand"):
+        return oracle_hand(case)
     G = spec_grid(case)
     try:
         seq, vec = run_vector(case)
@@ -743,8 +844,11 @@ def classify(case, res):
         w = " ".join(res[1].get("where", []))
         if "_acquire" in w or "accumulate" in w or "diff.py" in w or "stack" in res[1].get("msg", ""):
             return {"site": "Jacobian-stack", "why": "partials-of-different-batch-shapes"}
+    if case.get("hand"):
+        return {"site": "by-hand", "kind": res[0], "deriv": case["deriv"], "inplace": bool(case.get("inplace")),
+                "kinds": sorted({o["kind"] for o in case["ops"] if "params" in o})}
     return {"site": "unclassified", "kind": res[0], "deriv": case["deriv"],
-            "kinds": sorted({o["kind"] for o in case["ops"] if o["kind"] not in ("ADC", "T0", "M0", "Snd")})}
+            "kinds": sorted({o["kind"] for o in case["ops"] if o["kind"] not in ("ADC", "T0", "M0", "Snd", "SPOILER", "RESET", "Wait", "PDs", "D")})}
 
 
 def jsonable(case):
@@ -825,11 +929,12 @@ def part_bc(ctx, n, n_exact):
     reported = set()
     for i in range(n + n_exact):
         exact = i >= n
-        directed = (not exact) and i % 4 == 3
-        mixed = (not exact) and i % 4 == 1
-        ndshift = (not exact) and i % 4 == 2
-        case = gen_case(rng, ctx.tier, exact=exact, deriv="o1" if directed else "o2" if mixed else "none" if ndshift else None,
-                        force="axes+deriv" if directed else "mixed-o2" if mixed else "nd-shift" if ndshift else None)
+        directed = (not exact) and i % 5 == 3
+        mixed = (not exact) and i % 5 == 1
+        byhand = (not exact) and i % 5 == 0
+        ndshift = (not exact) and i % 5 == 2
+        case = gen_case(rng, ctx.tier, exact=exact, deriv="o1" if directed else "o2" if mixed else "none" if ndshift else rng.choice(["o1", "o2"]) if byhand else None,
+                        force="axes+deriv" if directed else "mixed-o2" if mixed else "nd-shift" if ndshift else "hand" if byhand else None)
         stats["cases"] += 1
         stats["exact_cases"] += int(exact)
         stats["deriv"][case["deriv"]] = stats["deriv"].get(case["deriv"], 0) + 1
@@ -941,7 +1046,7 @@ def run(ctx):
                    {"witness": "DESIGN 9.14", "vector": str(v), "scalar": str(ref)}, found_input=True,
                    signature={"site": "matrix_prod-inplace", "shapes": "op(1,m) state(k,m)"})
     ctx.notes["regression_witnesses"] = "DESIGN 9.14 (1,m)x(k,m) and axes-inserted-twice (1,1,2)x(2,1,2,1): replayed"
-    part_bc(ctx, 70 if quick else 1200, 25 if quick else 400)
+    part_bc(ctx, 85 if quick else 1500, 25 if quick else 400)
     ctx.cov["trusted_base"] += [
         "hand-written model Model/Vector.v tied to epgpy.common / scalar_prod / matrix_prod / prepare / getshape by exact correspondence of shapes, raise/no-raise and of the elements read (index-encoded arrays)",
         "numpy broadcasting, in-place ufunc and gufunc out= rules as modelled (np_bshape, np_proj, np_inplace_ok, np_out_ok), validated by the same correspondence",
